@@ -117,6 +117,8 @@ def drive(ctx: Ctx, strategy, body: Callable[[Any], None], total: int, chunk: in
 	# the time budget is a safety net, not a verdict: on a loaded machine every shard still completes a floor of cases
 	floor = int(ctx.budget.get('min_cases', max(1, total // 6)))
 	cases_run = [0]
+	# chunked on purpose: measured on C14, one long Hypothesis run per shard yields 37% duplicate programs (mutation of earlier examples that only
+	# touches unused draws), short runs with derived seeds 19% (mostly the minimal example that opens every run)
 	while done < total and not (ctx.out_of_time() and cases_run[0] >= floor):
 		n = min(chunk, total - done)
 		st = settings(max_examples=n, database=None, deadline=None, derandomize=False, report_multiple_bugs=False,
